@@ -336,6 +336,14 @@ func paths(c *mon.Ctx, cs gen.Case, id string) {
 				viol("P6-ConvertToRawFrame", "raw-body-changed-by-a-later-conversion")
 				ok = false
 			}
+			// a raw frame is a header plus opaque bytes; a proxy that replaces or builds the body by hand leaves
+			// Header.BodyLength stale. EncodeRawFrame takes the length from the body it is given.
+			switch hash(id) % 3 {
+			case 1:
+				raw.Header.BodyLength = 0
+			case 2:
+				raw.Header.BodyLength += 7
+			}
 			var out bytes.Buffer
 			if err := codec.EncodeRawFrame(raw, &out); err != nil {
 				viol("P6-EncodeRawFrame", "error:"+short(err))
